@@ -63,7 +63,12 @@ func runC18(c *Ctx) {
 		text := ps[0]
 		var acts []*Summary
 		for _, sub := range g.Subs {
-			if sub.Fn == tok && sub.Parent == s {
+			// called by the parser itself or by a helper outside the vocabulary below it
+			par := sub.Parent
+			for par != nil && par != s && c.P.IsNewHelper(par.Fn) {
+				par = par.Parent
+			}
+			if sub.Fn == tok && par == s {
 				acts = append(acts, sub)
 			}
 		}
@@ -127,7 +132,13 @@ func runC18(c *Ctx) {
 		c.Check(bad == "", "C18.R1", "NewHostRule: comment cut is line[:index('#')]", nhr.Pos(), "slice of the original line ending exactly at the index of '#', taken iff the index is positive", bad)
 
 		// R4: names
-		loops := loopsOf(nhr)
+		// the activation the parsing happens in: the constructor itself, or a helper outside the
+		// vocabulary that took its body over
+		B := s
+		if len(acts) > 0 && acts[0].Parent != nil {
+			B = acts[0].Parent
+		}
+		loops := loopsOf(B.Fn)
 		bad = ""
 		// the appends that feed the Hostnames field (directly, or through a local list stored at
 		// the end), as pseudo effects: condition, appended element, site
@@ -150,7 +161,7 @@ func runC18(c *Ctx) {
 			// a one-element literal []string{x} is a list holding x
 			for _, b := range bases {
 				sl, isSl := b.V.(*ssa.Slice)
-				if !isSl || b.Act != s {
+				if !isSl || b.Act != B {
 					continue
 				}
 				al, isAl := sl.X.(*ssa.Alloc)
@@ -167,15 +178,15 @@ func runC18(c *Ctx) {
 					}
 					for _, r2 := range *ia.Referrers() {
 						if stEl, isSt := r2.(*ssa.Store); isSt && stEl.Addr == ssa.Value(ia) {
-							if el := s.Env[stEl.Val]; el != nil && innermostLoop(loops, sl.Block()) == nil {
-								bare = &nameApp{Cond: s.RCAt(sl), Val: u.mk("append", "elems", sl.Type(), u.mk("nil", "", sl.Type()), el), Ins: sl}
+							if el := B.Env[stEl.Val]; el != nil && innermostLoop(loops, sl.Block()) == nil {
+								bare = &nameApp{Cond: B.RCAt(sl), Val: u.mk("append", "elems", sl.Type(), u.mk("nil", "", sl.Type()), el), Ins: sl}
 							}
 						}
 					}
 				}
 			}
 			for _, em := range ems {
-				if len(em.Elems) != 1 || em.Act != s {
+				if len(em.Elems) != 1 || em.Act != B {
 					continue
 				}
 				na := &nameApp{Cond: em.RC, Val: em.Act.Env[em.Call], Ins: em.Call}
@@ -191,7 +202,7 @@ func runC18(c *Ctx) {
 		} else {
 			l := innermostLoop(loops, inLoop.Ins.Block())
 			el := inLoop.Val.Args[len(inLoop.Val.Args)-1]
-			cont := contCond(u, s, l)
+			cont := contCond(u, B, l)
 			// cont must be: remainder != "", body unconditional, element = the token of the tokenizer
 			// activation in this loop, which scans the remainder
 			var actLoop *Summary
@@ -219,7 +230,14 @@ func runC18(c *Ctx) {
 				if sub.Loops == 0 {
 					continue
 				}
-				if blk := topBlockOf(sub, sub.Fn.Blocks[0].Instrs[0]); blk == nil || !l.Blocks[blk] {
+				// the block, in the parsing activation, of the call this activation descends from
+				var blk *ssa.BasicBlock
+				for x := sub; x != nil; x = x.Parent {
+					if x.Parent == B && x.Site != nil {
+						blk = x.Site.Block()
+					}
+				}
+				if blk == nil || !l.Blocks[blk] {
 					continue
 				}
 				for _, l2 := range loopsOf(sub.Fn) {
@@ -228,7 +246,7 @@ func runC18(c *Ctx) {
 					}
 				}
 			}
-			okBody := bodyCond == u.bdd.And(s.RC[l.Header], cont)
+			okBody := bodyCond == u.bdd.And(B.RC[l.Header], cont)
 			okExit := onlyExhaustionExit(l)
 			okCont := false
 			if actLoop != nil && scanned(actLoop) != nil {
